@@ -58,9 +58,12 @@ def assign_canonical_labels(m: nx.Graph) -> dict[int, int]:
     m_igraph = iGraph.from_networkx(m)
     old_labels = m_igraph.vs["_nx_name"]
     partitions = m_igraph.vs[PARTITION]
-    canonical_labels = m_igraph.canonical_permutation(color=partitions)
+    canonical_permutation = m_igraph.canonical_permutation(color=partitions)
+    # Applying the permutation with igraph itself keeps us independent of the
+    # permutation vector's index/value convention (changed in igraph 1.0).
+    m_canonical = m_igraph.permute_vertices(canonical_permutation)
 
-    return dict(zip(old_labels, canonical_labels))
+    return dict(zip(m_canonical.vs["_nx_name"], range(m_canonical.vcount())))
 
 
 def canonicalize_molecule(m: nx.Graph) -> nx.Graph:
